@@ -54,8 +54,10 @@ func (f *Last) Call(s *slip.Scope, args slip.List, depth int) (result slip.Objec
 	case slip.List:
 		n := 1
 		if 1 < len(args) {
-			if i, ok := args[1].(slip.Integer); ok && 0 <= n {
-				n = int(i.Int64())
+			if i, ok := args[1].(slip.Integer); ok && 0.0 <= i.RealValue() {
+				if n = len(list); i.IsInt64() && i.Int64() < int64(n) {
+					n = int(i.Int64())
+				}
 			} else {
 				slip.TypePanic(s, depth, "n", args[1], "non-negative integer")
 			}
